@@ -450,7 +450,9 @@ impl Session {
                     let dr = match payload.data_rate() {
                         DR::_15 => Some(configuration.data_rate),
                         n => {
-                            if region.get_datarate(n as u8).is_some() {
+                            // Only uplink data rates can be commanded: DR8 and above are the
+                            // downlink-only rates of the fixed-plan regions.
+                            if (n as u8) < 8 && region.get_datarate(n as u8).is_some() {
                                 Some(n)
                             } else {
                                 None
